@@ -4,7 +4,8 @@ set -u
 NAME=$1; ID=$2; TIER=${3:-quick}
 git -C /repo diff --quiet || { echo "/repo has uncommitted changes"; exit 2; }
 git -C /repo apply /verif/seeded/$NAME/patch.diff || exit 2
-/verif/check $ID $TIER > /tmp/tryseed-$NAME-$ID.log 2>&1; RC=$?
+OUT=/tmp/tryseed-out; rm -rf $OUT; mkdir -p $OUT
+VERIF_OUT=$OUT /verif/check $ID $TIER > /tmp/tryseed-$NAME-$ID.log 2>&1; RC=$?   # evidence/replays of a mutated tree never land in /verif
 git -C /repo checkout -- . ; git -C /repo clean -fdq
 echo "seed=$NAME check=$ID tier=$TIER exit=$RC violations=$(grep -c '^VIOLATION' /tmp/tryseed-$NAME-$ID.log)"
 grep -A2 -m2 '^VIOLATION\|^ENGINE' /tmp/tryseed-$NAME-$ID.log | cut -c1-300
